@@ -6,7 +6,7 @@ State: status in {NOT_CREATED, INITIALIZING, CREATED, CLEANING_UP} (enumerator v
 sandbox_list (M-vec sequence view), per-object callback_keys."""
 import os
 from vlib.unit import Unit, Inst, find_func, VERIF
-from .common import cs, PRE_GHOST
+from .common import cs, PRE_GHOST, dyn_keeps
 from .C03 import REGIONS, SB_DECL, sb_req, SB
 
 PROP = 'C14'
@@ -18,7 +18,9 @@ ST = 'rlbox::rlbox_sandbox<rlbox::vsbx>::Sandbox_Status'
 FACTS = {'ST_NOT_CREATED': ('(int)%s::NOT_CREATED' % ST, 'int'), 'ST_INITIALIZING': ('(int)%s::INITIALIZING' % ST, 'int'),
          'ST_CREATED': ('(int)%s::CREATED' % ST, 'int'), 'ST_CLEANING_UP': ('(int)%s::CLEANING_UP' % ST, 'int')}
 L = '$G(sandbox_list)'
-GH = PRE_GHOST + ' unsigned long g_vw, g_vw2;\n'
+GH = PRE_GHOST + ' unsigned long g_vw, g_vw2; void *g_obj; int g_snap;\n'
+# a refused life-cycle call (a catchable exception under RLBOX_USE_EXCEPTIONS) leaves the status as it found it
+KEEP = dyn_keeps('((struct %s *)g_obj)->sandbox_created == g_snap' % SB, 'a_refused_call_leaves_the_status_unchanged')
 
 # environment: the registry holds at most two other live instances (two-slot verification backend; the property
 # quantifies over up to three sandbox objects); witnesses 0 and 1 then cover every position
@@ -47,9 +49,9 @@ def create_inst(tier):
     h = ('  struct %s sb; int in_status = sb.sandbox_created; int in_create_ok = sb.base0.create_ok;\n' % SB + LIST_ENV +
          '  _Bool in_noabort; g_noabort = in_noabort; int in_slot; unsigned long in_base, in_size;\n'
          '  __CPROVER_assume((in_status != ST_CREATED) ==> ((in_len < 1 || arr[0] != (void *)&sb) && (in_len < 2 || arr[1] != (void *)&sb)));\n'
-         '  _Bool r = $ROOT(&sb, in_slot, in_base, in_size);\n')
+         '  g_obj = &sb; g_snap = in_status;\n  _Bool r = $ROOT(&sb, in_slot, in_base, in_size);\n')
     return Inst('c14_create_sandbox', 'rlbox_sandbox<vsbx>& s, int slot, uintptr_t base, uintptr_t size', 's.create_sandbox(slot, base, size);', cl, h,
-                leaves=['dynamic_check'], prop=PROP, root_name='create_sandbox', tier=tier, pre=GH, facts=FACTS,
+                leaves=[KEEP], prop=PROP, root_name='create_sandbox', tier=tier, pre=GH, facts=FACTS,
                 note='vsbx::impl_create_sandbox (may fail: create_ok) is verified inline')
 
 
@@ -73,8 +75,8 @@ def destroy_inst(tier, clause_recreate=True):
     cl.append(('frame', '__CPROVER_assigns($this->sandbox_created, $this->base0.destroyed, $this->callback_keys.len, $this->func_ptr_map, $this->internal_func_ptr_map, V_BASE[0], V_BASE[1], V_SIZE[0], V_SIZE[1], %s.len, __CPROVER_object_whole(%s.elem))' % (L, L)))
     h = ('  struct %s sb; int in_status = sb.sandbox_created; unsigned long in_keys = sb.callback_keys.len; __CPROVER_assume(sb.base0.destroyed < 1000);\n' % SB + LIST_ENV +
          '  _Bool in_noabort; g_noabort = in_noabort; unsigned long in_pos; g_pos = in_pos; unsigned char in_name; g_name = in_name;\n'
-         '  $ROOT(&sb);\n')
-    return Inst('c14_destroy_sandbox', 'rlbox_sandbox<vsbx>& s', 's.destroy_sandbox();', cl, h, leaves=['dynamic_check'], prop=PROP, root_name='destroy_sandbox',
+         '  g_obj = &sb; g_snap = in_status;\n  $ROOT(&sb);\n')
+    return Inst('c14_destroy_sandbox', 'rlbox_sandbox<vsbx>& s', 's.destroy_sandbox();', cl, h, leaves=[KEEP], prop=PROP, root_name='destroy_sandbox',
                 tier=tier, pre=GH + ' unsigned long g_pos; unsigned char g_name;\n', facts=FACTS, opts={'map_str_keys': True},
                 post_protos=('_Bool vstd_strmap_empty(const struct M_map_strk_voidp *m)\n'
                              '__CPROVER_requires(__CPROVER_r_ok(m, sizeof(*m)))\n'
